@@ -164,8 +164,18 @@ def p1(R, m):
     R.check(basis == [[1, 0, 0], [0, 1, 0], [0, 0, 1]], "C16.P1", REL, mfs.lineno, "m_from_string", "basis vectors visited in order x,y,z: %s" % basis,
             "rows of the operator matrix are no longer the images of the basis vectors in x,y,z order")
     app = [c for c in ast.walk(loops[0]) if isinstance(c, ast.Call) and isinstance(c.func, ast.Attribute) and c.func.attr == "append"]
-    R.check(len(app) == 1 and isinstance(app[0].args[0], ast.BinOp) and isinstance(app[0].args[0].op, ast.Sub) and src(app[0].args[0].right) == "t",
-            "C16.P1", REL, mfs.lineno, "m_from_string", "row i = f(e_i) - f(0)", "the translation part is no longer removed from each row")
+    R.shape(len(app) == 1 and len(app[0].args) == 1, "C16.P1", REL, "m_from_string", "one row appended per basis vector")
+    row = pyfacts.resolved(mfs, app[0].args[0], 4, keep=("s",))
+
+    def unwrap(n):
+        while isinstance(n, ast.Call) and pyfacts.dotted(n.func) in ("np.array", "numpy.array", "np.asarray", "numpy.asarray") and len(n.args) == 1:
+            n = n.args[0]
+        return n
+    lhs, rhs = (unwrap(row.left), unwrap(row.right)) if isinstance(row, ast.BinOp) and isinstance(row.op, ast.Sub) else (None, None)
+    tv = [x.id for x in ast.walk(loops[0].target) if isinstance(x, ast.Name)]
+    okrow = isinstance(lhs, ast.Call) and isinstance(rhs, ast.Call) and src(lhs.func) == src(rhs.func) and [src(a) for a in lhs.args] == tv \
+        and [src(a) for a in rhs.args] == ["0", "0", "0"] and "lambda x, y, z" in src(lhs.func).replace("x,y,z", "x, y, z")
+    R.check(okrow, "C16.P1", REL, mfs.lineno, "m_from_string", "row i = f(e_i) - f(0)  (%s)" % src(row)[:120], "the translation part is no longer removed from each row")
     rets = [r for r in ast.walk(mfs) if isinstance(r, ast.Return)]
     R.shape(len(rets) == 1 and app, "C16.P1", REL, "m_from_string", "the single return of the operator matrix")
     lst = src(app[0].func.value) if app else "?"
